@@ -1,0 +1,47 @@
+//go:build verif
+
+package protocol
+
+// Hooks for the verification harness in /verif. This file is only compiled
+// with `-tags verif`; it adds exported entry points to unexported code and
+// changes nothing else.
+
+import (
+	"net"
+
+	"github.com/bolkedebruin/rdpgw/cmd/rdpgw/identity"
+	"github.com/bolkedebruin/rdpgw/cmd/rdpgw/transport"
+)
+
+// VerifNewTunnel builds a tunnel over the given transports the way the
+// websocket handler does (in == out) or the legacy handlers do (in != out).
+func VerifNewTunnel(in transport.Transport, out transport.Transport, user identity.Identity) *Tunnel {
+	return &Tunnel{
+		transportIn:  in,
+		transportOut: out,
+		User:         user,
+	}
+}
+
+// VerifBackend returns the connection to the remote desktop server, if any.
+func VerifBackend(t *Tunnel) net.Conn { return t.rwc }
+
+// VerifSetBackend sets the connection to the remote desktop server.
+func VerifSetBackend(t *Tunnel, c net.Conn) { t.rwc = c }
+
+// VerifCloseBackend runs the tunnel's backend cleanup.
+func VerifCloseBackend(t *Tunnel) { t.closeBackend() }
+
+// VerifForward runs the server -> client forwarding loop.
+func VerifForward(in net.Conn, t *Tunnel) { forward(in, t) }
+
+// VerifReceive runs the client -> server unwrapping of one DATA packet body.
+func VerifReceive(data []byte, out net.Conn) { receive(data, out) }
+
+// VerifSetSendReceiveBuffers exposes the socket buffer tuning.
+func VerifSetSendReceiveBuffers(g *Gateway, conn net.Conn) error {
+	return g.setSendReceiveBuffers(conn)
+}
+
+// VerifState returns the state of the packet loop.
+func VerifState(p *Processor) int { return p.state }
